@@ -41,7 +41,7 @@ ASSUMPTIONS = [
     "single population type only (gen_model does not generate several types)",
 ]
 BUDGET = {"quick": 640, "thorough": 20000}
-TIME_CAP = {"quick": 70, "thorough": 1150}
+TIME_CAP = {"quick": 60, "thorough": 1150}
 RTOL_CONTENT = 1e-14
 RTOL_SIM = 1e-9
 
@@ -128,7 +128,7 @@ def cases(draw, tier):
         spec["data"] = _round15(spec["data"])
         if spec.get("progs"):
             spec["progs"] = _round15(spec["progs"])
-    case = {"kind": kind, "spec": spec, "exact": exact, "feats": sorted(feats)}
+    case = {"kind": kind, "spec": spec, "exact": exact}
     if kind == "stateful":
         n_ops = draw(st.sampled_from([1, 2, 2, 3, 3, 4, 4]))
         case["ops"] = [draw(_op(rnd)) for _ in range(n_ops)]
@@ -239,13 +239,13 @@ def _labels(case, extra=()):
     labs = ["kind:" + case["kind"]]
     if "exact" in case:
         labs.append("numbers:16-digit-exact" if case["exact"] else "numbers:full-precision")
-    labs += ["data:" + f for f in case.get("feats", [])]
+    labs += ["data:" + f for f in sorted(H.data_features(case["spec"]))]
     labs += list(extra)
     return labs
 
 
 def _rich(case):
-    f = set(case.get("feats", []))
+    f = H.data_features(case["spec"])
     return bool(f & {"assumption", "assumption+years"}) and "sparse-series" in f and "uncertainty" in f
 
 
